@@ -105,6 +105,42 @@ class StrSub(str):
         return self.shown
 
 
+class LyingStartswith(str):
+    """a name whose startswith() denies every prefix"""
+    def startswith(self, *a):
+        return False
+
+
+class LyingEq(str):
+    """a name that compares unequal to everything and hashes to a constant (defeats `name in SET`, `name == "mro"`)"""
+    def __eq__(self, other):
+        return False
+
+    def __ne__(self, other):
+        return True
+
+    def __hash__(self):
+        return 0
+
+    def startswith(self, *a):
+        return False
+
+
+class StrReturnsLying(str):
+    """str(key) is itself an instance of a lying str subclass"""
+    def __new__(cls, content, shown):
+        self = super().__new__(cls, content)
+        self.shown = shown
+        return self
+
+    def __str__(self):
+        return LyingStartswith(self.shown)
+
+
+NAME_KINDS = {"lying-startswith": lambda n: LyingStartswith(n), "lying-eq-hash": lambda n: LyingEq(n),
+              "str-returns-lying": lambda n: StrReturnsLying("safe", n)}
+
+
 # ------------------------------------------------------------------ synthetic objects
 class Val:
     """distinct identity-carrying values for 'the attribute' and 'the item'"""
@@ -254,9 +290,9 @@ class Tracer:
 class Dyn:
     """every attribute exists, served by __getattr__: private names carry the sentinel"""
     def __getattr__(self, n):
-        if n.startswith("nosuch"):
+        if str.startswith(n, "nosuch"):
             raise AttributeError(n)
-        return (SENT + "d" if n.startswith("_") else "DYN:") + n
+        return (SENT + "d" if str.startswith(n, "_") else "DYN:") + str.__str__(n)
 
     def __repr__(self):
         return "<Dyn>"
@@ -267,9 +303,9 @@ class DynAll:
     def __getattribute__(self, n):
         if n in ("__class__", "__repr__", "__dict__"):
             return object.__getattribute__(self, n)
-        if n.startswith("nosuch"):
+        if str.startswith(n, "nosuch"):
             raise AttributeError(n)
-        return (SENT + "a" if n.startswith("_") else "DYNALL:") + n
+        return (SENT + "a" if str.startswith(n, "_") else "DYNALL:") + str.__str__(n)
 
     def __repr__(self):
         return "<DynAll>"
@@ -278,7 +314,7 @@ class DynAll:
 class Raising:
     """the attribute protocol raises something that is not AttributeError"""
     def __getattr__(self, n):
-        if n.startswith("nosuch"):
+        if str.startswith(n, "nosuch"):
             raise AttributeError(n)
         raise RuntimeError("attribute protocol failure")
 
@@ -326,6 +362,9 @@ def tracer_data():
     data.update({"hf": hf, "hd": {"f": hf}, "hl": [hf], "hm": "{x._secret}|{x.pub}".format_map,
                  "hmk": Markup("{0._secret}|{0.pub}").format, "ht": (hf,)})
     data["mk"] = {n: Markup(n) for n in PRIVATE_NAMES + PUBLIC_NAMES + ["nosuchattr_zz"]}       # Markup (a str subclass) as the key
+    # attribute NAMES of adversarial value kinds, supplied by the render data
+    for i, (kind, mkname) in enumerate(NAME_KINDS.items()):
+        data["nk%d" % i] = {n: mkname(n) for n in PRIVATE_NAMES + PUBLIC_NAMES + ["nosuchattr_zz"]}
     # subscript keys that are str subclasses: content "safe", str() = the attribute name under test
     data["sk"] = {n: StrSub("safe", n) for n in PRIVATE_NAMES + PUBLIC_NAMES + ["nosuchattr_zz"]}
     return data, close_all
@@ -356,6 +395,15 @@ ACCESS = {
     "subscript-var": "{%% set k = '%(n)s' %%}{{ (%(b)s)[k] }}",
     "subscript-strsubclass": "{{ (%(b)s)[sk['%(n)s']] }}",
     "subscript-markup-key": "{{ (%(b)s)[mk['%(n)s']] }}",
+    # the NAME comes from the render data and is an instance of a str subclass that lies about itself
+    "attr-filter-lying-startswith": "{{ (%(b)s)|attr(nk0['%(n)s']) }}",
+    "attr-filter-lying-eq": "{{ (%(b)s)|attr(nk1['%(n)s']) }}",
+    "subscript-lying-startswith": "{{ (%(b)s)[nk0['%(n)s']] }}",
+    "subscript-lying-eq": "{{ (%(b)s)[nk1['%(n)s']] }}",
+    "subscript-str-returns-lying": "{{ (%(b)s)[nk2['%(n)s']] }}",
+    "map-attribute-lying": "{{ [%(b)s]|map(attribute=nk0['%(n)s'])|list }}",
+    "map-attr-filter-lying": "{{ [%(b)s]|map('attr', nk1['%(n)s'])|list }}",
+    "sort-attribute-lying": "{{ [%(b)s, %(b)s]|sort(attribute=nk0['%(n)s'])|length }}",
     # comma-separated (multi) attributes, integer parts, dotted paths in the other attribute-taking filters
     "sort-multi": "{{ [%(b)s, %(b)s]|sort(attribute='pub,%(n)s')|length }}",
     "sort-multi-first": "{{ [%(b)s, %(b)s]|sort(attribute='%(n)s,pub')|length }}",
